@@ -7,7 +7,7 @@ CONSTANTS
   Replicas = {"n"}
   Up <- MCUp
   IsCompact <- MCIsCompact
-  MaxBatch = 3
+  MaxBatch = 2
   ChunkSizes = {1}
   MaxVer = 4
   MaxRestarts = 1
